@@ -63,6 +63,25 @@ let () = run_lines (fun toks ->
     outp (Model.run_ppdivmod (zs p) (ps iq) (ps ir) (ps ia) (ps ib) (poly_of vq) (poly_of vr) (poly_of va) (poly_of vb))
   | ["ppmod"; p; ir; ia; ib; vr; va; vb] ->
     outp (Model.run_ppmod (zs p) (ps ir) (ps ia) (ps ib) (poly_of vr) (poly_of va) (poly_of vb))
+  (* ==== driverP4.snip — phase 4 additions to ocaml/driver.ml (new match cases; put them before the final catch-all)
+     rm: unchanged line format; new op numbers: 30 = exp(a, b, const ruint<K>& c) with the exponent OBJECT at position ib
+         (value vb; nl = log2 W / 64 limbs), 101 = the same without the copy of the exponent (MGA only differs)
+     rmexpw <old 0|1> <W> <p> <p1> <r> <nl> <ir> <ia> <ie> <vr> <va> <ve>              -> r a e      (MG_ACTIVE body)
+     qmuldiv <op> <noreduce 0|1> <ir> <ia> <rn> <rd> <an> <ad>                         -> rn rd an ad
+         (op 0 `*=`  1 `/=`  2 `/=` with the seeded order C15-m8; r op= a; ir = ia: the same Rational object)
+     rushift <seeded 0|1> <Wh> <hb> <d> <ib> <ia> <bh> <bl> <ah> <al>                  -> bh bl ah al
+         (left_shift(b, a, d) on (High, Low) halves of hb bits, Wh = 2^hb; seeded 1 = C15-m1 body)
+     rulmul <kara 0|1> <Wh> <iah> <ial> <ib> <ic> <ahh> <ahl> <alh> <all> <bh> <bl> <ch> <cl>
+                                                                                       -> ahh ahl alh all bh bl ch cl *)
+  | ["rmexpw"; old; w; p; p1; r; nl; ir; ia; ie; vr; va; ve] ->
+    out (Model.run_rm_expw (old = "1") (zs w) (zs p) (zs p1) (zs r) (ns nl) (ps ir) (ps ia) (ps ie) (zs vr) (zs va) (zs ve))
+  | ["qmuldiv"; op; nr; ir; ia; rn; rd; an; ad] ->
+    out (Model.run_qmuldiv (ns op) (nr = "1") (ps ir) (ps ia) (zs rn) (zs rd) (zs an) (zs ad))
+  | ["rushift"; sd; wh; hb; d; ib; ia; bh; bl; ah; al] ->
+    out (Model.run_rushift (sd = "1") (zs wh) (zs hb) (zs d) (ps ib) (ps ia) (zs bh) (zs bl) (zs ah) (zs al))
+  | ["rulmul"; kara; wh; iah; ial; ib; ic; ahh; ahl; alh; all; bh; bl; ch; cl] ->
+    out (Model.run_rulmul (kara = "1") (zs wh) (ps iah) (ps ial) (ps ib) (ps ic)
+           (zs ahh) (zs ahl) (zs alh) (zs all) (zs bh) (zs bl) (zs ch) (zs cl))
   | ["gcdext"; a; b] ->
     let ((g, s), t) = Model.gcdext (zs a) (zs b) in out [g; s; t]
   | ["invmod"; a; p] -> string_of_z (Model.invmod (zs a) (zs p))
